@@ -54,6 +54,9 @@ type Hooks struct {
 	Access func(st *State, e ast.Expr, x Val, lo, hi Val, slice bool)
 	// Store is told about every assignment to a plain variable.
 	Store func(st *State, obj types.Object, v Val)
+	// FieldStore is told about every assignment to a field (of a tracked object or of a symbolic base), with the
+	// value the field held before.
+	FieldStore func(st *State, base Val, field string, old, v Val)
 	// Inline resolves a statically-called module function/method to its declaration for inlining.
 	Inline func(fn *types.Func) (*ast.FuncDecl, *types.Info)
 	// Visit: callee hands its items to a callback argument one by one; returns the index of that argument and the
@@ -65,7 +68,7 @@ type Hooks struct {
 	// FreeStruct resolves a captured struct variable that is defined once by a composite literal: the literal and
 	// the names of the fields that are never written afterwards (only those keep the literal's value; every other
 	// field is unknown — it may have been changed by an earlier run of the interpreted body).
-	FreeStruct func(v *types.Var) (*ast.CompositeLit, map[string]bool)
+	FreeStruct func(v *types.Var) (ast.Expr, map[string]bool)
 	// FreeClosure resolves a variable that is free in the interpreted body (declared in the enclosing function)
 	// to the function literal it is bound to, when that binding is unique.
 	FreeClosure func(v *types.Var) *ast.FuncLit
